@@ -296,10 +296,19 @@ func exec(planJSON []byte, run *core.Run) {
 		return
 	}
 
+	var attrsObj tkn20.Attributes // one object, refilled for every holder (when the plan says so)
 	for hi, h := range p.Holders {
 		want := p.Policy.eval(h.Attrs, false)
 		var attrs tkn20.Attributes
-		attrs.FromMap(h.Attrs)
+		if p.Seed%2 == 1 {
+			attrsObj.FromMap(h.Attrs)
+			attrs = attrsObj
+			if hi > 0 {
+				run.Fault("history:attributes-object-refilled")
+			}
+		} else {
+			attrs.FromMap(h.Attrs)
+		}
 		for name, pl := range map[string]*tkn20.Policy{"parsed": &pol, "printed-and-reparsed": &pol2, "extracted-from-ciphertext": &polX} {
 			if got := pl.Satisfaction(attrs); got != want {
 				run.Violate(comp+".Policy.Satisfaction", "differs-from-policy-semantics", "policy %q (%s), attributes %v: Satisfaction=%v, the stated semantics give %v", src, name, h.Attrs, got, want)
@@ -424,6 +433,20 @@ func exec(planJSON []byte, run *core.Run) {
 		case "":
 		default:
 			run.Bad("fault")
+			return
+		}
+		// the same key object is used again for the genuine ciphertext
+		pt2, err2, ok2 := decrypt(ct)
+		if !ok2 {
+			return
+		}
+		run.Fault("history:attribute-key-used-again")
+		if want && (err2 != nil || !bytes.Equal(pt2, msg)) {
+			run.Violate(comp+".AttributeKey.Decrypt", "key-unusable-after-earlier-decryptions", "policy %q, attributes %v: the key decrypted the ciphertext once and fails on the second use: %v", src, h.Attrs, err2)
+			return
+		}
+		if !want && err2 == nil {
+			run.Violate(comp+".AttributeKey.Decrypt", "unqualified-holder-decrypts", "policy %q, attributes %v: second use of the key", src, h.Attrs)
 			return
 		}
 	}
